@@ -15,6 +15,7 @@ import (
 	"github.com/zclconf/go-cty/cty"
 
 	"verifharness/internal/core"
+	"verifharness/internal/gen"
 	"verifharness/internal/model"
 	"verifharness/internal/runner"
 )
@@ -27,7 +28,7 @@ func (c16) ID() string { return "C16" }
 func (c16) Meta() Meta {
 	return Meta{
 		Level:       "exploration",
-		Rule:        "(a) keys: generated dependency key sets (<= 5 keys; label values, attribute values as string / number in int and float form of the same value / bool / reference address) - for EVERY permutation of each set (exhaustive, <= 120 each) NewSchemaKey must be the same, and over all generated sets two different sets never share a key (pairwise, by grouping); (b) agreement: on generated and fixture configurations every block is walked with the model's effective schema (M-eff: static + dependent body found by the model's own order-free key lookup, second level by attributes of the first); the decoder's own effective schema (hook VerifEffectiveBodySchema) must hold the same attribute/block names, and the marker attributes of the selected dependent body must be seen alike by completion (typed prefix 'dep_' on a fresh line of the block), hover, semantic tokens, reference origins and validation - all or none; (c) links: LinksInFile must equal one link per key label / written key attribute of each top-level block whose selected body has a DocsLink. distinct non-trivial = (source, block) pairs whose dependent body resolves, keyed by lookup outcome and key sources (label/literal/default/reference).",
+		Rule:        "(a) keys: generated dependency key sets (<= 5 keys; label values, attribute values as string / number in int and float form of the same value / bool / reference address) - for EVERY permutation of each set (exhaustive, <= 120 each) NewSchemaKey must be the same, and over all generated sets two different sets never share a key (pairwise, by grouping); (b) agreement: on generated and fixture configurations every block is walked with the model's effective schema (M-eff: static + dependent body found by the model's own order-free key lookup, second level by attributes of the first); the decoder's own effective schema (hook VerifEffectiveBodySchema) must hold the same attribute/block names, and the marker attributes of the selected dependent body must be seen alike by completion (typed prefix 'dep_' on a fresh line of the block), hover, semantic tokens, reference origins and validation - all or none; (d) JSON: for generated JSON-expressible configurations with dependent bodies the decoder's effective body schema (hook) of every top-level block must hold the same names for the native and for the JSON rendering; (c) links: LinksInFile must equal one link per key label / written key attribute of each top-level block whose selected body has a DocsLink. distinct non-trivial = (source, block) pairs whose dependent body resolves, keyed by lookup outcome and key sources (label/literal/default/reference).",
 		Assumptions: []string{"a key set holds one value per label index / attribute name (no duplicates)", "links of nested blocks are not required (the decoder only links top-level blocks)", "unknown/null static values are not a value form the property lists"},
 		Floor:       map[string]int{"quick": 30, "thorough": 100},
 		CaseBudget:  60,
@@ -52,7 +53,7 @@ func (p c16) sources(tier string, seed int64) []Source {
 
 func (p c16) NumUnits(tier string, seed int64) int {
 	_, ku, _, _ := c16Params(tier)
-	return ku + len(p.sources(tier, seed))
+	return ku + len(p.sources(tier, seed)) + c16JSONUnits(tier)
 }
 
 func (p c16) RunUnit(idx int, tier string, seed int64, focus map[string]string, rep *runner.Reporter) {
@@ -62,8 +63,114 @@ func (p c16) RunUnit(idx int, tier string, seed int64, focus map[string]string, 
 		return
 	}
 	srcs := p.sources(tier, seed)
-	rc := srcs[idx-ku].Recipe
-	p.agreement(idx, rc, rep)
+	if idx-ku < len(srcs) {
+		rc := srcs[idx-ku].Recipe
+		p.agreement(idx, rc, rep)
+		return
+	}
+	p.jsonAgreement(idx, seed*100000+int64(idx), rep)
+}
+
+func c16JSONUnits(tier string) int {
+	if tier == "thorough" {
+		return 4000
+	}
+	return 400
+}
+
+// (d) the same configuration in JSON syntax selects the same body: for every top-level
+// block of a generated JSON-expressible configuration the decoder's effective body schema
+// (hook) of the native block and of the JSON block must hold the same names.
+func (p c16) jsonAgreement(unit int, gseed int64, rep *runner.Reporter) {
+	opt := "simple,deps"
+	nat := gen.Build(gseed, opt)
+	js, ok := gen.BuildJSON(gseed, opt)
+	if !ok {
+		return
+	}
+	envN, envJ := nat.WS.Build(false), js.WS.Build(false)
+	pcN, pcJ := envN.PathCtx[gen.GenPath], envJ.PathCtx[gen.GenPath]
+	if pcN == nil || pcJ == nil || pcN.Schema == nil || pcN.Files["main.tf"] == nil || pcJ.Files["main.tf.json"] == nil {
+		return
+	}
+	bodyN, ok := pcN.Files["main.tf"].Body.(*hclsyntax.Body)
+	if !ok {
+		return
+	}
+	// the JSON body is decoded with the root schema's block types and label names
+	hs := &hcl.BodySchema{}
+	var types []string
+	for t := range pcJ.Schema.Blocks {
+		types = append(types, t)
+	}
+	sort.Strings(types)
+	for _, t := range types {
+		bh := hcl.BlockHeaderSchema{Type: t}
+		for _, l := range pcJ.Schema.Blocks[t].Labels {
+			bh.LabelNames = append(bh.LabelNames, l.Name)
+		}
+		hs.Blocks = append(hs.Blocks, bh)
+	}
+	contentJ, _, _ := pcJ.Files["main.tf.json"].Body.PartialContent(hs)
+	if contentJ == nil {
+		return
+	}
+	names := func(b *hcl.Block, bs *schema.BlockSchema) (string, int) {
+		eff, res := core.EffectiveBodySchema(b, bs)
+		if eff == nil {
+			return "<nil>", res
+		}
+		var out []string
+		for n := range eff.Attributes {
+			out = append(out, "attr:"+n)
+		}
+		for n := range eff.Blocks {
+			out = append(out, "block:"+n)
+		}
+		sort.Strings(out)
+		return strings.Join(out, ","), res
+	}
+	type seen struct {
+		names string
+		res   int
+	}
+	byKeyJ := map[string][]seen{}
+	for _, b := range contentJ.Blocks {
+		bs := pcJ.Schema.Blocks[b.Type]
+		if bs == nil {
+			continue
+		}
+		k := b.Type + "|" + strings.Join(b.Labels, "|")
+		n, r := names(b, bs)
+		byKeyJ[k] = append(byKeyJ[k], seen{n, r})
+	}
+	used := map[string]int{}
+	for _, sb := range bodyN.Blocks {
+		bs := pcN.Schema.Blocks[sb.Type]
+		if bs == nil || len(bs.DependentBody) == 0 {
+			continue
+		}
+		k := sb.Type + "|" + strings.Join(sb.Labels, "|")
+		i := used[k]
+		used[k]++
+		if i >= len(byKeyJ[k]) {
+			continue
+		}
+		rep.Mark(unit, sb.Range().Start.Byte, -5, -1)
+		nn, rn := names(sb.AsHCLBlock(), bs)
+		rep.Eval(2)
+		rep.Count("json_native_block_pairs", 1)
+		j := byKeyJ[k][i]
+		if rn == 1 || rn == 2 {
+			rep.NonTrivial(fmt.Sprintf("json|%d|%s", gseed, k))
+		}
+		if nn != j.names {
+			rep.Violation(&runner.Witness{Sig: fmt.Sprintf("EFFECTIVE-SCHEMA json-differs-from-native native-lookup=%d json-lookup=%d", rn, j.res),
+				What:  fmt.Sprintf("block %s %v: the effective body schema selected for the JSON rendering differs from the one selected for the native rendering of the same block", sb.Type, sb.Labels),
+				Unit:  mustJSON(map[string]interface{}{"gen_seed": gseed, "opt": opt, "json": true}),
+				Files: map[string]string{"/gen/main.tf": nat.Src, "/gen/main.tf.json": js.Src}, Expected: "native: " + nn, Observed: "json:   " + j.names})
+		}
+	}
 }
 
 // ---------------------------------------------------------------- (a) keys
